@@ -462,6 +462,72 @@ def empty_chunk_is_identity(chk):
     chk.floor('chunked cipher entry points', n, 32)
 
 
+def x86ni_round_key_chains(chk):
+    """AES-NI code paths: a block goes through AddRoundKey with round key 0, then one AESENC (AESDEC) per round with round keys 1, 2, ...
+    in order, and AESENCLAST (AESDECLAST) with round key Nr, Nr = 10 / 12 / 14 (FIPS 197 5.1; the decryption schedule is stored
+    already reversed).  The code is unrolled per lane and per key size, so each (function, lane, key size) has its own chain; a
+    copy/paste slip in one lane of one key size corrupts a quarter of the blocks for that key size only.  Rule: walking back from every
+    *LAST intrinsic through the first operands, the round-key slots (constant offsets into the local expanded-key array) are
+    Nr, Nr-1, ..., 1 and the chain starts with an xor with slot 0."""
+    from .. import wmw
+    R = 'x86ni-round-key-chain'
+    P = wmw.program()
+    n = 0
+    nf = 0
+    for (un, fn), F in sorted(P.static.items()):
+        if 'x86ni' not in F.file():
+            continue
+        lasts = [c for c in F.calls() if (c.get('callee') or '') in ('llvm.x86.aesni.aesenclast', 'llvm.x86.aesni.aesdeclast')]
+        if not lasts:
+            continue
+        nf += 1
+
+        def slot(o):
+            o = F.strip_casts(o)
+            if o['k'] == 'i' and F.insts[o['v']]['op'] == 'load':
+                b, off = F.addr_of(F.insts[o['v']]['ops'][0])
+                if b['k'] == 'i' and F.insts[b['v']]['op'] == 'alloca' and off is not None and off % 16 == 0:
+                    return b['v'], off // 16
+            return None
+        for L in lasts:
+            n += 1
+            rnd = 'aesenc' if 'enc' in L['callee'] else 'aesdec'
+            top = slot(L['ops'][1])
+            inst = '%s:%s: %slast chain uses round keys Nr, Nr-1, ..., 1, 0 in order' % (fn, L.get('line'), rnd)
+            if top is None or top[1] not in (10, 12, 14):
+                chk.violation(R, inst, F.where(L), 'the final round key is %s (expected slot 10, 12 or 14 of the expanded key)' % (top,), key='%s %s %s' % (R, fn, L.get('line')))
+                continue
+            arr, k = top
+            x = F.strip_casts(L['ops'][0])
+            bad = None
+            while k > 1:
+                k -= 1
+                if x['k'] != 'i' or F.insts[x['v']].get('callee') != 'llvm.x86.aesni.' + rnd:
+                    bad = 'round %d is not an %s of the running block' % (k, rnd.upper())
+                    break
+                c = F.insts[x['v']]
+                sl = slot(c['ops'][1])
+                if sl != (arr, k):
+                    bad = 'round %d uses round key %s instead of %d' % (k, sl[1] if sl else '?', k)
+                    at = c
+                    break
+                x = F.strip_casts(c['ops'][0])
+            if not bad:
+                # AddRoundKey with slot 0 (possibly through a phi-free xor chain)
+                ok0 = False
+                if x['k'] == 'i' and F.insts[x['v']]['op'] == 'xor':
+                    ok0 = any(slot(o) == (arr, 0) for o in F.insts[x['v']]['ops'])
+                if not ok0:
+                    bad = 'the chain does not start with an xor with round key 0'
+            if bad:
+                chk.violation(R, inst, F.where(L), bad + ' (Nr = %d): blocks of this lane are wrong for %d-bit keys only' % (top[1], {10: 128, 12: 192, 14: 256}[top[1]]),
+                              key='%s %s %s' % (R, fn, L.get('line')))
+            else:
+                chk.ok(R, inst, F.where(L))
+    chk.count('x86ni functions with AES round chains', nf)
+    chk.floor('x86ni round-key chains', n, 50)
+
+
 def x86ni_counter_lanes(chk):
     """AES-NI CTR processes four blocks at a time: the four counter blocks differ in their last 32 bits, which hold the *big-endian*
     encoding of cc, cc+1, cc+2, cc+3.  The increment must happen before the byte swap (a carry out of the low byte has to reach the
@@ -716,6 +782,7 @@ def run(tier):
     empty_chunk_is_identity(chk)
     x86ni_counter_lanes(chk)
     x86ni_cbcdec_iv(chk)
+    x86ni_round_key_chains(chk)
     from .. import lints as _l
     _l.tail_copy_from_running_pointer(chk, ('src/symcipher/', 'src/hash/'))
     _l.limb_split_consistent(chk, ['src/symcipher/'])
